@@ -421,20 +421,6 @@ func init() {
 			for i := 0; i < raceSoaks(tier); i++ {
 				cs = append(cs, CaseSpec{Kind: "soak", P: map[string]int64{"n": int64(4 + i%2), "txs": 240, "pace_us": 30000}, S: map[string]string{"race": "1"}})
 			}
-			// validators that reset their running hashgraph in place from the peer
-			// whose anchor is the oldest, i.e. usually to an anchor below their own
-			// last block, with a lagging validator in the network
-			old := 6
-			if tier == "thorough" {
-				old = 60
-			}
-			for j := 0; j < old; j++ {
-				c := CaseSpec{Kind: "history", P: map[string]int64{"n": int64(4 + j%2), "steps": int64(420 + 40*(j%3)), "ffresets": 3, "ffsingle": 1, "ffoldest": 1, "badger": int64(j % 2)}, S: map[string]string{"shape": "lag"}}
-				if j%2 == 1 {
-					c.P["cache"] = int64(2500 + 100*(j%7))
-				}
-				cs = append(cs, c)
-			}
 			// several readers per node that re-read delivered blocks through the
 			// node's block API as fast as they can while consensus goes on
 			// a validator told to leave while its application is busy with a block
@@ -451,6 +437,22 @@ func init() {
 			}
 			for i := 0; i < hammers; i++ {
 				cs = append(cs, CaseSpec{Kind: "soak", P: map[string]int64{"n": int64(3 + i%3), "txs": 400, "pace_us": 2000, "readers": 4, "hammer": 1}})
+			}
+			// (appended after the live cases so that those keep their place in the
+			// workers' lists: several live soaks starting at the same moment starve each other)
+			// validators that reset their running hashgraph in place from the peer
+			// whose anchor is the oldest, i.e. usually to an anchor below their own
+			// last block, with a lagging validator in the network
+			old := 6
+			if tier == "thorough" {
+				old = 60
+			}
+			for j := 0; j < old; j++ {
+				c := CaseSpec{Kind: "history", P: map[string]int64{"n": int64(4 + j%2), "steps": int64(420 + 40*(j%3)), "ffresets": 3, "ffsingle": 1, "ffoldest": 1, "badger": int64(j % 2)}, S: map[string]string{"shape": "lag"}}
+				if j%2 == 1 {
+					c.P["cache"] = int64(2500 + 100*(j%7))
+				}
+				cs = append(cs, c)
 			}
 			return cs
 		},
